@@ -11,6 +11,31 @@ CHECKS = {
             "Generated search: every cycle of generated single-warrior whole-core programs is compared cell-for-cell and queue-for-queue with a reference interpreter written from the ICWS'94 draft; all 7616 opcode/modifier/mode forms are executed at least k times per run. No counterexample among N cases; not a proof.",
             "Trusts the reference interpreter (harness/ref) as a faithful reading of the ICWS'94 draft; core sizes sampled (3..64 dense, up to 8192 sparse).",
             "DESIGN.md section 4, C01"),
+
+    "C02": ("property-based differential testing of whole battles against a reference scheduler (rapid), plus Run-vs-RunCycle relation",
+            "Generated search: random 1..4-warrior battles are stepped next to a reference MARS scheduler; return values, executed (warrior,pc) lists, queues, alive flags, counters and the whole core are compared after every cycle, and Run() on a fresh simulator must reach the same final state.",
+            "Trusts harness/ref (scheduler written from the property statement and the ICWS'94 draft). Cores mostly 3..60.",
+            "DESIGN.md section 4, C02"),
+    "C04": ("property-based invariant checking over fuzzed configurations and hostile battles (rapid)",
+            "Generated search over all eight configuration fields (0..2^20) and, on accepted configurations, hostile self-modifying battles with the listed invariants checked after every cycle and panics/hangs converted into failures.",
+            "Per-cycle full-core scan only for cores <= 256 cells (larger: reported addresses + final full scan); at most 400 stepped cycles per battle before the final Run().",
+            "DESIGN.md section 4, C04"),
+    "C11": ("property-based testing with distance-bound invariants and a metamorphic far-cell-irrelevance relation (rapid)",
+            "Generated search: write-distance and jump-distance bounds checked directly on gmars' core diff and queue; operand-fetch bound observed metamorphically (replacing a far cell must not change the step); R=W=M compared against a limit-free reference step.",
+            "Oracles 1-3 use no reference folding; oracle 4 trusts harness/ref.StepNoLimits.",
+            "DESIGN.md section 4, C11"),
+    "C12": ("metamorphic property-based testing: rotated placement vs original placement (rapid)",
+            "Generated search: the same battle at offsets o and (o+k) mod M + j*M is stepped side by side; return values, counters, rotated core and shifted queues compared after every cycle and after Run().",
+            "Relation between two gmars executions; no model needed.",
+            "DESIGN.md section 4, C12"),
+    "C13": ("model-based (stateful) property testing of API call sequences: bounded-exhaustive enumeration plus rapid sampling, and a reset-vs-fresh metamorphic relation",
+            "All call sequences over a 20-call alphabet up to depth 4 (quick) / 5 (thorough) from 7 starting states, plus sampled sequences up to length 60; every call under a watchdog; whole observable state compared with a reference model after every call; reset+respawn compared with a fresh simulator.",
+            "Trusts the model of the documented state machine (harness/ref Battle + props/c13). RunCycle on a decided several-warrior battle may execute the survivor or do nothing (both accepted).",
+            "DESIGN.md section 4, C13"),
+    "C15": ("property-based testing of the report stream against the reference event stream (rapid)",
+            "Generated battles with a recording listener and the bundled StateRecorder: per-task changed cells subset of reported subset of reference may-touch; TaskPop sequence equals reference; terminate reports iff deaths; recorder equals the last-operation fold of the reference events; empty after Reset.",
+            "Trusts harness/ref event stream; cores <= 64 so the listener can snapshot the core at every task.",
+            "DESIGN.md section 4, C15"),
 }
 
 NOT_YET = {}
